@@ -299,13 +299,20 @@ def f2_concatenations(ctx: Ctx) -> None:
                 else:
                     ctx.bad(R, f, c, f'operands of np.concatenate({arg.id}) are not brought to one resolved dtype first', key=key)
                 continue
-            if top.name == '_concatenate_blocks':
-                # reached only from consolidate_blocks with groups of one dtype
+            if top.name in ('_concatenate_blocks', 'consolidate_blocks'):
+                # reached only from consolidate_blocks with groups of one dtype (the helper may have been spliced into consolidate_blocks by the model)
                 cb = top.cls.methods.get('consolidate_blocks') if top.cls else None
-                split = cb is not None and any(isinstance(n, ast.If) and norm(n.test) == 'block.dtype != group_dtype' for n in walk_local(cb.node))
+
+                def _splits(n: ast.AST) -> bool:
+                    # a new group starts whenever the dtype of the block differs from the dtype of the group
+                    if not isinstance(n, ast.If):
+                        return False
+                    return any(isinstance(c_, ast.Compare) and len(c_.ops) == 1 and isinstance(c_.ops[0], ast.NotEq)
+                               and any(isinstance(x, ast.Attribute) and x.attr == 'dtype' for x in ast.walk(c_)) for c_ in ast.walk(n.test))
+                split = cb is not None and any(_splits(n) for n in walk_local(cb.node))
                 callers = [g.qualname for g in prog.all_funcs() if not isinstance(g.node, ast.Lambda) and any(
                     isinstance(x, ast.Call) and call_name(x).endswith('_concatenate_blocks') for x in walk_local(g.node))]
-                only_cb = all(q.endswith('consolidate_blocks') for q in callers) and callers
+                only_cb = all(q.endswith('consolidate_blocks') for q in callers)
                 (ctx.ok if split and only_cb else ctx.bad)(R, f, c, 'called only by consolidate_blocks, which starts a new group whenever block.dtype != group_dtype' if split and only_cb else
                                                            f'_concatenate_blocks is reachable with mixed dtypes (callers {callers}, group split present: {split})', key=key)
                 continue
